@@ -290,7 +290,7 @@ class GetApplicableOffers(Contract):
         self.protos = [z3.Const("from_protocol_%d" % i, Val) for i in range(2)]
         self.offers = {(i, j): z3.Const("offer_%d_%d" % (i, j), Val) for i in range(2) for j in range(2)}
         self.dist = z3.Function("mro_distance", Val, Val, z3.IntSort())
-        self.path = z3.Const("offers_on_the_path", SeqV)
+        self.on_path = z3.Const("offers_on_the_path", SeqV)
         outer = self
 
         class Dist(Contract):
@@ -330,7 +330,7 @@ class GetApplicableOffers(Contract):
         st = st.put(offers_obj.oid, HObj("obj", None, None, {"items": VFunc("opaque", name="items", apply=items_apply)}))
         st = st.put(self_ref.oid, HObj("obj", None, "AdaptationManager", {"_adaptation_offers": offers_obj}))
         pref = VRef(cx.new_oid())
-        st = st.put(pref.oid, HObj("list", self.path))
+        st = st.put(pref.oid, HObj("list", self.on_path))
         st = st.assume(z3.Distinct(*self.offers.values()), self.protos[0] != self.protos[1])
         return st, [self_ref, VElem(self.cur), pref], {}, dict(witness={})
 
@@ -346,7 +346,7 @@ class GetApplicableOffers(Contract):
         for i in range(2):
             for j in range(2):
                 o = self.offers[(i, j)]
-                on_path = z3.Contains(self.path, z3.Unit(o))
+                on_path = z3.Contains(self.on_path, z3.Unit(o))
                 pair = cx.box_tuple([cx.box_int(self.dist(self.cur, self.protos[i])), o])
                 exp = z3.Concat(exp, z3.If(z3.And(provides(self.cur, self.protos[i]), z3.Not(on_path)), z3.Unit(pair), EMPTY_SEQ))
         return [("post:exactly-the-applicable-offers-not-yet-on-the-path-each-with-its-distance-in-registration-order", edges == exp)]
